@@ -442,6 +442,38 @@ def reused_request_maps(ctx):
                 ctx.count("requests through one reused, edited map")
 
 
+def maps_handed_back(ctx):
+    """A caller that builds a new quantity from the composing map of an existing one (what `GetCategoryToUnitAndExps()` hands
+    out), also a map that leaves a unit to the category (None): neither the existing quantity nor the caller's own map is
+    rewritten by the request."""
+    from barril.units import ObtainQuantity, Quantity
+
+    db = table.build("posc")
+    with table.pushed(db):
+        for mk in (lambda: OrderedDict([("length", [None, 2]), ("time", ["s", -1])]), lambda: OrderedDict([("length", ["m", 1]), ("time", [None, -2])]), lambda: OrderedDict([("depth", [None, 1]), ("length", ["cm", 1])])):
+            for first in ("ObtainQuantity(dict)", "CreateDerived", "Quantity(map)"):
+                ctx.ev()
+                try:
+                    mine = mk()
+                    before_mine = repr(mine)
+                    q = ObtainQuantity(mine) if first == "ObtainQuantity(dict)" else (Quantity.CreateDerived(mine) if first == "CreateDerived" else Quantity(mine, None))
+                    if repr(mine) != before_mine:
+                        ctx.violation("request-rewrote-the-callers-map:%s" % first, {"handed_over": before_mine, "now": repr(mine)}, replay={"maps_handed_back": True})
+                    fp0 = snapshot.quantity_fingerprint(q)
+                    for again in ("CreateDerived(q.GetCategoryToUnitAndExps())", "ObtainQuantity(q.GetCategoryToUnitAndExps())", "q.MakeCopy(q.GetCategoryToUnitAndExps())", "CreateDerived(copy of it)"):
+                        m2 = q.GetCategoryToUnitAndExps()
+                        q2 = {"CreateDerived(q.GetCategoryToUnitAndExps())": lambda: Quantity.CreateDerived(m2), "ObtainQuantity(q.GetCategoryToUnitAndExps())": lambda: ObtainQuantity(m2), "q.MakeCopy(q.GetCategoryToUnitAndExps())": lambda: q.MakeCopy(m2),
+                              "CreateDerived(copy of it)": lambda: Quantity.CreateDerived(q.GetCategoryToUnitAndExpsCopy())}[again]()
+                        ctx.ev()
+                        if snapshot.quantity_fingerprint(q) != fp0:
+                            ctx.violation("quantity-changed-when-its-own-map-was-handed-to-a-request:%s" % again, {"built_by": first, "before": repr(fp0)[:240], "after": repr(snapshot.quantity_fingerprint(q))[:240]}, replay={"maps_handed_back": True})
+                            fp0 = snapshot.quantity_fingerprint(q)
+                        del q2
+                except Exception as e:
+                    ctx.count("requests with a unit left to the category that were refused (%s)" % type(e).__name__)
+        ctx.count("maps handed back to requests")
+
+
 def constructor_forms(ctx):
     """One quantity reached through every way of asking for it - the interning request, the constructor with (category, unit),
     the constructor and the requests with a one-entry composing map - is one value: pairwise ==, not !=, equal hashes, one
@@ -520,6 +552,8 @@ def pickles_from_elsewhere(ctx):
             ("derived, never interned", Quantity(OrderedDict([("length", ["km", 2]), ("time", ["h", -2])]), None)), ("derived with caption", ObtainQuantity(OrderedDict((k, list(v)) for k, v in m_s.items()), None, "cap")),
             ("product", (Scalar(2.0, "kg") * Scalar(3.0, "m") / Scalar(1.0, "s")).GetQuantity()), ("Scalar m/s2", Scalar(2.0, "m") / Scalar(1.0, "s") / Scalar(1.0, "s")), ("FixedArray m2", FixedArray(2, "length", [1.0, 2.0], "m") * FixedArray(2, "length", [1.0, 2.0], "m")),
             ("Scalar degC", Scalar(0.0, "degC")), ("legacy spelling", ObtainQuantity("1000ft3/d", "volume flow rate")),
+            ("derived with a zero exponent", ObtainQuantity(OrderedDict([("length", ["m", 2]), ("time", ["s", 0])]))), ("Scalar on it", Scalar(ObtainQuantity(OrderedDict([("length", ["m", 2]), ("time", ["s", 0])])), 2.0)),
+            ("derived, a unit left to the category", ObtainQuantity(OrderedDict([("length", [None, 2]), ("time", ["s", -1])]))),
         ]  # fmt: skip
 
     def fp(o):
@@ -536,6 +570,18 @@ def pickles_from_elsewhere(ctx):
             except Exception as e:
                 ctx.count("objects that cannot be pickled")
                 blobs.append((name, None, repr(e)))
+        # (a0) in this very process, everything still interned
+        for (name, blob, want), (_n, o) in zip(blobs, objs):
+            if blob is None:
+                continue
+            ctx.ev()
+            try:
+                back = pickle.loads(blob)
+                qb, qo = (back.GetQuantity(), o.GetQuantity()) if hasattr(o, "GetQuantity") else (back, o)
+                if fp(back) != want or not (qb == qo) or hash(qb) != hash(qo):
+                    ctx.violation("pickle-not-equal:read in the same process", {"object": name, "wrote": want, "read": fp(back)}, replay={"pickles_elsewhere": True})
+            except Exception as e:
+                ctx.violation("pickle-raised:read in the same process:%s" % type(e).__name__, {"object": name, "error": str(e)[:200]}, replay={"pickles_elsewhere": True})
         # (a) nothing interned any more on this database
         db.quantities_cache.clear()
         for (name, blob, want), (_n, o) in zip(blobs, objs):
@@ -616,6 +662,7 @@ def run(ctx):
     if ctx.shard == 0:
         reused_request_maps(ctx)
         constructor_forms(ctx)
+        maps_handed_back(ctx)
         pickles_from_elsewhere(ctx)
     ctx.count("fingerprint comparisons", mon.n_checks)
     ctx.notes["monitor"] = {"fingerprint_and_pair_checks": mon.n_checks}
@@ -632,6 +679,8 @@ def replay(ctx, d):
     mon.install()
     if d.get("reused_maps"):
         return reused_request_maps(ctx)
+    if d.get("maps_handed_back"):
+        return maps_handed_back(ctx)
     if d.get("constructor_forms"):
         return constructor_forms(ctx)
     if d.get("pickles_elsewhere"):
